@@ -367,7 +367,11 @@ func main() {
 		if err := json.Unmarshal([]byte(*child), &cfg); err != nil {
 			panic(err)
 		}
-		runChild(cfg, *childRes)
+		if cfg.Scenario == "closeleg" {
+			runCloseLeg(cfg, *childRes)
+		} else {
+			runChild(cfg, *childRes)
+		}
 		return
 	}
 	if *out == "" || *sites == "" {
@@ -442,6 +446,12 @@ func main() {
 			}
 			add("fmp4", "ram", "dupdts", sd, ddur)
 			add("ll", "dir", "dupdts", sd, ddur)
+			// requests overlapping Close on Directory storage (deterministic window, see closeleg.go)
+			for _, v := range []string{"ll", "fmp4", "mpegts"} {
+				add(v, "dir", "closeleg", sd, 0)
+				add(v, "dir", "closeleg", sd+500, 0)
+			}
+			add("fmp4", "ram", "closeleg", sd, 0)
 			// the other video codecs (their parameter fields are in the table too)
 			for i, cd := range []string{"h265", "vp9", "av1"} {
 				v, st := "fmp4", "ram"
